@@ -149,9 +149,13 @@ namespace l2cap {
     template < typename ConnectionData >
     void signaling_channel< Options... >::l2cap_input( const std::uint8_t* input, std::size_t in_size, std::uint8_t* output, std::size_t& out_size, ConnectionData& )
     {
+        static constexpr std::size_t connection_parameter_update_response_size = 6;
+
         const std::uint8_t code = in_size > 0 ? input[ 0 ] : 0;
 
-        if ( code == connection_parameter_update_response_code && pending_status_ == transmitted )
+        // only the response to the pending request completes that request
+        if ( code == connection_parameter_update_response_code && pending_status_ == transmitted
+          && in_size == connection_parameter_update_response_size && input[ 1 ] == identifier_ )
         {
             pending_status_ = idle;
             identifier_ = static_cast< std::uint8_t >( identifier_ + 1 );
